@@ -140,7 +140,7 @@ func hasNonFinite(v Val) bool {
 }
 
 func checkC19(c *Ctx) {
-	c.rule = "(1) generate: random nested dictionaries (texts over quotes, backslashes, control characters, astral code points; doubles incl. -0, subnormals, 2^53+1, 1.8e308; booleans, 空, empty lists/dicts) enter as input variables; the text of 生成JSON is parsed by Python json.loads (strict constants) and compared structurally; non-finite numbers must give a catchable exception, and so must objects / types / methods / exceptions anywhere in the structure (never null); (2) parse: documents produced by Python json.dumps (random separators, indent, ensure_ascii) must parse to the generator's value with keys in document order; (3) in-language round trip (解析JSON：（生成JSON：D）) 为 D; (6) values nested around the 10000-level bound (a parsed document of depth 9990 wrapped in up to 40 further levels by the program): generation then parsing gives the value back, or generation refuses; (5) documents nested 100 … 200000 deep (thorough: up to 6 million) as objects / arrays / both / unclosed: parsed or refused with an exception, never a dead process; (4) every single-character deletion / replacement of small documents: Python rejects => Zn raises an exception a 拦截 catches, Python accepts => same value. distinct_nontrivial = distinct (family, value shape signature, outcome)"
+	c.rule = "(1) generate: random nested dictionaries (texts over quotes, backslashes, control characters, astral code points; doubles incl. -0, subnormals, 2^53+1, 1.8e308; booleans, 空, empty lists/dicts) enter as input variables; the text of 生成JSON is parsed by Python json.loads (strict constants) and compared structurally; non-finite numbers must give a catchable exception, and so must objects / types / methods / exceptions anywhere in the structure (never null); (2) parse: documents produced by Python json.dumps (random separators, indent, ensure_ascii) must parse to the generator's value with keys in document order; (3) in-language round trip (解析JSON：（生成JSON：D）) 为 D; (6) values nested around the 10000-level bound (a parsed document of depth 9990 wrapped in up to 40 further levels by the program): generation then parsing gives the value back, or generation refuses; (7) documents of 9997 … 10002 nested lists / dictionaries with a scalar, a text, null or nothing innermost: what 解析JSON accepts, 生成JSON writes and 解析JSON reads back as the same value; (5) documents nested 100 … 200000 deep (thorough: up to 6 million) as objects / arrays / both / unclosed: parsed or refused with an exception, never a dead process; (4) every single-character deletion / replacement of small documents: Python rejects => Zn raises an exception a 拦截 catches, Python accepts => same value. distinct_nontrivial = distinct (family, value shape signature, outcome)"
 	c.assumptions = []string{"Python 3 json module is the reference parser/encoder", "documents whose Python value contains inf (overflowing literals), lone surrogates, integers beyond 2^53, or whose top level is not an object are not judged"}
 	py, err := startPyOracle(c.Root)
 	if err != nil {
@@ -290,6 +290,63 @@ func checkC19(c *Ctx) {
 			ok := resp.Kind == "value" && resp.Val != nil && ((resp.Val.T == "bool" && resp.Val.B) || (resp.Val.T == "text" && resp.Val.S() == "generation-refused"))
 			if !ok {
 				c.Violation(fmt.Sprintf("deep-value:%d:%d", d, i%2), fmt.Sprintf("a dictionary holding a value nested %d deep: 生成JSON then 解析JSON -> %s %s (the text one of them produces must be read back by the other, or generation must refuse it)", d, resp.Kind, clip(resp.Outcome(), 120)), map[string]interface{}{"req": req})
+			}
+		})
+	}
+	// the converse at the bound itself: a document 解析JSON accepts is a JSON-representable
+	// dictionary, so 生成JSON must write it and the round trip must give it back
+	{
+		type bd struct {
+			depth          int
+			kind, innermost string
+		}
+		bds := []bd{}
+		for _, depth := range []int{9997, 9998, 9999, 10000, 10001, 10002} {
+			for _, kind := range []string{"list", "dict"} {
+				for _, in := range []string{"1", "", "\"x\"", "null"} {
+					bds = append(bds, bd{depth, kind, in})
+				}
+			}
+		}
+		breqs := []Req{}
+		for _, b := range bds {
+			// depth counts the containers of the document, the outer dictionary included
+			doc := "{\"a\":" + strings.Repeat("[", b.depth-1) + b.innermost + strings.Repeat("]", b.depth-1) + "}"
+			if b.kind == "dict" {
+				in := b.innermost
+				if in == "" {
+					in = "{}"
+				} else {
+					in = "{\"a\":" + in + "}"
+				}
+				doc = strings.Repeat("{\"a\":", b.depth-1) + in + strings.Repeat("}", b.depth-1)
+			}
+			src := "导入《@JSON》\n输入文\n" +
+				"如何生成？\n\t输入值\n\t输出（生成JSON：值）\n\n\t拦截异常：\n\t\t输出 空\n" +
+				"如何解析？\n\t输入字\n\t输出（解析JSON：字）\n\n\t拦截异常：\n\t\t输出 空\n" +
+				"令底 = （解析：文）\n如果 底 为 空：\n\t输出 “parse-refused”\n令字 = （生成：底）\n如果 字 为 空：\n\t输出 “generation-refused-after-parse”\n令回 = （解析：字）\n如果 回 为 空：\n\t输出 “reparse-refused”\n输出 回 为 底\n"
+			r := execReq(src)
+			r.Libs = true
+			r.EvalBudget = 0
+			r.Inputs = map[string]Val{"文": Text(doc)}
+			breqs = append(breqs, r)
+		}
+		c.runBatches(breqs, 2, func(i int, req *Req, resp *Resp) {
+			c.Eval()
+			b := bds[i]
+			out := resp.Kind
+			if resp.Kind == "value" && resp.Val != nil {
+				out = resp.Val.String()
+			}
+			c.Nontrivial(fmt.Sprintf("bound|%d|%s|%s|%s", b.depth, b.kind, b.innermost, out))
+			c.Count("bound_documents_checked", 1)
+			if resp.Kind == "timeout" {
+				c.Count("deep_values_not_judged_watchdog", 1)
+				return
+			}
+			ok := resp.Kind == "value" && resp.Val != nil && ((resp.Val.T == "bool" && resp.Val.B) || (resp.Val.T == "text" && resp.Val.S() == "parse-refused"))
+			if !ok {
+				c.Violation(fmt.Sprintf("bound:%d:%s:%s", b.depth, b.kind, b.innermost), fmt.Sprintf("a document of %d nested %ss (innermost %q) that 解析JSON accepts: 生成JSON of the result, then 解析JSON again -> %s", b.depth, b.kind, b.innermost, clip(out, 120)), map[string]interface{}{"req": req})
 			}
 		})
 	}
